@@ -2,6 +2,7 @@
 # tools_mutant.sh <patch.diff> <property> [tier]: run a check against a scratch worktree of /repo HEAD with the patch applied
 set -e
 P="$1"; PROP="$2"; TIER="${3:-quick}"
+mkdir -p /tmp/scr/ev
 D=$(mktemp -d /tmp/scr/mutXXXXXX)
 git -C /repo worktree add -q --detach "$D" HEAD
 ( cd "$D" && git apply "$P" )
